@@ -79,7 +79,7 @@ def needs_escape(s):
 
 
 IDENTS = ["a", "b", "x", "y", "answer", "foo_bar", "Level", "span2", "msg", "message", "id", "ok", "n", "value", "fieldz"]
-DOTTED = ["http.method", "http.status_code", "a.b.c", "user.id", "otel.kind", "log.line"]
+DOTTED = ["http.method", "http.status_code", "a.b.c", "user.id", "otel.kind", "log.line", "log.target", "log.x", "log."]
 RAW = ["r#type", "r#match", "r#fn", "r#loop", "r#struct", "r#x", "r#"]
 ODD = ["spa ce", "uni\u2028sep", "ast\U0001F600ral", "\u00e9", "semi;colon", "x=y", "{brace}", "", "caf\u00e9.au.lait", "DEL\x7f", "c1\x85", "'single'", "r #", "#r"]
 ESC = ['quo"te', "back\\slash", "new\nline", "tab\there", "nul\x00", "cr\rx", '"', "\\", "esc\x1b[0m", "\\u0041"]
@@ -197,11 +197,23 @@ def gen_vals(rng, names, p_set, floats=True):
     return out[:12]
 
 
+SEV = ("sev_new", "sev_enter", "sev_exit", "sev_close")
+
+
 def gen_opts(rng, kind):
     o = {k: rng.random() < 0.5 for k in ("flatten", "cur", "list", "target", "level", "file", "line", "tname", "tid")}
     if kind == "default":
         o.update(flatten=False, cur=True, list=True, target=True, level=True, file=False, line=False, tname=False, tid=False)
     o["ts"] = H(rand_string(rng, 8)) if rng.random() < 0.3 else None
+    # with_span_events: none (most cases), a random subset, or all
+    r = rng.random()
+    for k in SEV:
+        o[k] = False if (r < 0.55 or kind == "default") else (True if r > 0.85 else rng.random() < 0.5)
+    if kind == "lifecycle":
+        for k in SEV:
+            o[k] = rng.random() < 0.8
+        if rng.random() < 0.6:
+            o["ts"] = H(rand_string(rng, 8))
     return o
 
 
@@ -218,7 +230,9 @@ def gen_case(rng, kind="mixed", floats=True, explicit=True, esc_names=True, dup=
             names.append("name")
         span_cs.append(len(callsites))
         callsites.append({"kind": "span", "name": H(rand_string(rng, 8)), "target": H(rand_string(rng, 6)), "level": rng.randrange(5),
-                          "file": None, "line": None, "fields": [H(n) for n in names], "_names": names})
+                          "file": H(rand_string(rng, 8)) if rng.random() < 0.4 else None,
+                          "line": rng.choice([0, 7, 2 ** 32 - 1]) if rng.random() < 0.4 else None,
+                          "fields": [H(n) for n in names], "_names": names})
     ev_cs = []
     for _ in range(rng.choice([1, 1, 2, 3])):
         names = gen_names(rng, rng.choice([0, 1, 2, 3, 4, 6]), False, opts["flatten"], allow_dup=dup)
@@ -232,30 +246,44 @@ def gen_case(rng, kind="mixed", floats=True, explicit=True, esc_names=True, dup=
                           "line": rng.choice([0, 1, 42, 2 ** 32 - 1]) if rng.random() < 0.6 else None,
                           "fields": [H(n) for n in names], "_names": names})
     ops = []
-    created = []
+    created = []          # ids of spans created so far
+    alive = []            # ... whose handle has not been dropped
+    parent_of = {}
     entered = []
     nrec = {}
     nevents = 0
     steps = rng.randint(4, 16)
+    p_close = 0.10 if kind == "lifecycle" else 0.04
+
+    def closable():
+        # dropping the handle closes the span right away iff nothing else refers to it: not entered, no live child
+        return [s for s in alive if s not in entered and not any(parent_of.get(c) == s for c in alive)]
+
     for step in range(steps + 3):
         r = rng.random()
         if len(created) < nspans and (r < 0.35 or step < 1):
             i = len(created)
             pr = rng.random()
-            parent = -2 if pr < 0.55 else (-1 if pr < 0.7 or not created else rng.choice(created))
+            parent = -2 if pr < 0.55 else (-1 if pr < 0.7 or not alive else rng.choice(alive))
             cs = callsites[span_cs[i]]
             ops.append({"op": "span", "cs": span_cs[i], "id": i, "parent": parent, "vals": gen_vals(rng, cs["_names"], 0.55, floats)})
             created.append(i)
-        elif r < 0.50 and [s for s in created if s not in entered]:
-            s = rng.choice([s for s in created if s not in entered])
+            alive.append(i)
+            parent_of[i] = (entered[-1] if entered else None) if parent == -2 else (None if parent == -1 else parent)
+        elif r < 0.50 and [s for s in alive if s not in entered]:
+            s = rng.choice([s for s in alive if s not in entered])
             ops.append({"op": "enter", "id": s})
             entered.append(s)
         elif r < 0.58 and entered:
             s = entered[-1] if rng.random() < 0.8 else rng.choice(entered)
             ops.append({"op": "exit", "id": s})
             entered.remove(s)
-        elif r < 0.78 and [s for s in created if callsites[span_cs[s]]["_names"] and nrec.get(s, 0) < 5]:
-            s = rng.choice([s for s in created if callsites[span_cs[s]]["_names"] and nrec.get(s, 0) < 5])
+        elif r < 0.58 + p_close and closable():
+            s = rng.choice(closable())
+            ops.append({"op": "close", "id": s})
+            alive.remove(s)
+        elif r < 0.78 and [s for s in alive if callsites[span_cs[s]]["_names"] and nrec.get(s, 0) < 5]:
+            s = rng.choice([s for s in alive if callsites[span_cs[s]]["_names"] and nrec.get(s, 0) < 5])
             names = callsites[span_cs[s]]["_names"]
             k = rng.randint(1, min(3, len(names)))
             idx = rng.sample(range(len(names)), k)
@@ -269,12 +297,20 @@ def gen_case(rng, kind="mixed", floats=True, explicit=True, esc_names=True, dup=
             pr = rng.random()
             parent = -2
             if explicit:
-                parent = -2 if pr < 0.6 else (-1 if pr < 0.72 or not created else rng.choice(created))
+                parent = -2 if pr < 0.6 else (-1 if pr < 0.72 or not alive else rng.choice(alive))
             ops.append({"op": "event", "cs": ci, "parent": parent, "vals": gen_vals(rng, callsites[ci]["_names"], 0.8, floats)})
             nevents += 1
     if nevents == 0 or rng.random() < 0.5:
         ci = rng.choice(ev_cs)
         ops.append({"op": "event", "cs": ci, "parent": -2, "vals": gen_vals(rng, callsites[ci]["_names"], 0.8, floats)})
+    if kind == "lifecycle" and rng.random() < 0.6:
+        # wind down: exit everything, close leaves first
+        while entered:
+            ops.append({"op": "exit", "id": entered.pop()})
+        while closable() and rng.random() < 0.9:
+            s = rng.choice(closable())
+            ops.append({"op": "close", "id": s})
+            alive.remove(s)
     thread = H(rand_string(rng, 8, allow_nul=False)) if rng.random() < 0.5 else None
     for c in callsites:
         del c["_names"]
@@ -296,28 +332,7 @@ DEF_OPTS = {"flatten": False, "cur": True, "list": True, "target": True, "level"
 def builtin_corpus():
     v = lambda t, x: {"t": t, "v": x}
     out = []
-    out.append({"kind": "F10-explicit-parent", "opts": DEF_OPTS, "thread": None,
-                "callsites": [_cs("span", "root", []), _cs("span", "child", []), _cs("event", "ev", ["message"]), _cs("span", "other", [])],
-                "ops": [{"op": "span", "cs": 0, "id": 0, "parent": -1, "vals": []}, {"op": "span", "cs": 1, "id": 1, "parent": 0, "vals": []},
-                        {"op": "event", "cs": 2, "parent": 1, "vals": [[0, v("args", H("explicit, nothing entered"))]]},
-                        {"op": "span", "cs": 3, "id": 2, "parent": -1, "vals": []}, {"op": "enter", "id": 2},
-                        {"op": "event", "cs": 2, "parent": 1, "vals": [[0, v("args", H("explicit, other entered"))]]},
-                        {"op": "event", "cs": 2, "parent": -1, "vals": [[0, v("args", H("explicit root"))]]},
-                        {"op": "event", "cs": 2, "parent": -2, "vals": [[0, v("args", H("contextual"))]]}]})
-    out.append({"kind": "F141-escaped-span-key", "opts": DEF_OPTS, "thread": None,
-                "callsites": [_cs("span", "s", ['quo"te', "later"]), _cs("event", "ev", ["message"])],
-                "ops": [{"op": "span", "cs": 0, "id": 0, "parent": -1, "vals": [[0, v("u64", "1")]]}, {"op": "enter", "id": 0},
-                        {"op": "event", "cs": 1, "parent": -2, "vals": []},
-                        {"op": "record", "id": 0, "vals": [[1, v("u64", "5")]]},
-                        {"op": "event", "cs": 1, "parent": -2, "vals": []}]})
-    out.append({"kind": "F142-float-span-field", "opts": DEF_OPTS, "thread": None,
-                "callsites": [_cs("span", "s", ["f"]), _cs("event", "ev", ["f"])],
-                "ops": [{"op": "span", "cs": 0, "id": 0, "parent": -1, "vals": [[0, v("f64", "%016x" % bits_of_f64(0.15838287025480557))]]},
-                        {"op": "enter", "id": 0},
-                        {"op": "event", "cs": 1, "parent": -2, "vals": [[0, v("f64", "%016x" % bits_of_f64(0.15838287025480557))]]}]})
-    out.append({"kind": "F143-duplicate-event-field", "opts": DEF_OPTS, "thread": None,
-                "callsites": [_cs("event", "ev", ["a", "a"])],
-                "ops": [{"op": "event", "cs": 0, "parent": -2, "vals": [[0, v("u64", "1")], [1, v("u64", "2")]]}]})
+    # the witnesses of F10 / F141 / F142 / F143 are files in corpus/C14/ (regression cases since the repairs)
     out.append({"kind": "escapes-everywhere", "opts": dict(DEF_OPTS, file=True, line=True, tname=True, ts=H('t"\n')), "thread": H('th"\n\\'),
                 "callsites": [_cs("span", 's"\n\\\u2028\U0001F600', ["k", "uni\u2028"]),
                               _cs("event", "ev", ["message", 'f"\\\n', "\u2029"], target='tg"\n\\\x01', file='src/"x".rs', line=7)],
@@ -327,6 +342,28 @@ def builtin_corpus():
                         {"op": "record", "id": 0, "vals": [[0, v("bytes", "000aff22")]]},
                         {"op": "event", "cs": 1, "parent": -2,
                          "vals": [[0, v("args", H('m"\\\n\u2028'))], [1, v("i128", str(-2 ** 127))], [2, v("error", [H('e"1\n'), H("e2")])]]}]})
+    ALL_SEV = dict(DEF_OPTS, sev_new=True, sev_enter=True, sev_exit=True, sev_close=True)
+    out.append({"kind": "lifecycle-all-points", "opts": dict(ALL_SEV, ts=H("T")), "thread": None,
+                "callsites": [_cs("span", "outer", ["k"], target="tg", level=1, file="f.rs", line=3), _cs("span", 'in"ner', ["later"]),
+                              _cs("event", "ev", ["message"])],
+                "ops": [{"op": "span", "cs": 0, "id": 0, "parent": -1, "vals": [[0, v("u64", "1")]]}, {"op": "enter", "id": 0},
+                        {"op": "span", "cs": 1, "id": 1, "parent": -2, "vals": []},
+                        {"op": "record", "id": 1, "vals": [[0, v("str", H('x"\n'))]]},
+                        {"op": "enter", "id": 1}, {"op": "event", "cs": 2, "parent": -2, "vals": [[0, v("args", H("inside"))]]},
+                        {"op": "exit", "id": 1}, {"op": "close", "id": 1}, {"op": "exit", "id": 0}, {"op": "close", "id": 0},
+                        {"op": "event", "cs": 2, "parent": -2, "vals": [[0, v("args", H("after"))]]}]})
+    out.append({"kind": "lifecycle-flattened-no-timer", "opts": dict(ALL_SEV, flatten=True, cur=True, list=False), "thread": H("wörker"),
+                "callsites": [_cs("span", "s", ["a"]), _cs("event", "ev", ["message"])],
+                "ops": [{"op": "span", "cs": 0, "id": 0, "parent": -1, "vals": [[0, v("bool", True)]]}, {"op": "enter", "id": 0},
+                        {"op": "exit", "id": 0}, {"op": "close", "id": 0}]})
+    out.append({"kind": "log-prefixed-span-fields", "opts": DEF_OPTS, "thread": None,
+                "callsites": [_cs("span", "s", ["log.target", "log.line", "r#log.x", "plain"]), _cs("event", "ev", ["message", "log.target"])],
+                "ops": [{"op": "span", "cs": 0, "id": 0, "parent": -1,
+                         "vals": [[0, v("debug", H("dbg"))], [1, v("u64", "7")], [2, v("display", H("raw"))], [3, v("debug", H("p"))]]},
+                        {"op": "enter", "id": 0},
+                        {"op": "event", "cs": 1, "parent": -2, "vals": [[0, v("args", H("m"))], [1, v("debug", H("evdbg"))]]},
+                        {"op": "record", "id": 0, "vals": [[0, v("str", H("typed now"))], [1, v("display", H("dropped in the log build"))]]},
+                        {"op": "event", "cs": 1, "parent": -2, "vals": []}]})
     return out
 
 
@@ -355,13 +392,22 @@ def carries(v):
     return v["t"] not in ("empty", "unset")
 
 
+VIA_DEBUG = ("u128", "i128", "debug", "display", "args", "error")
+
+
+def log_skipped(lg, name, v):
+    """the build with tracing-subscriber's `tracing-log` feature drops span fields named `log.*` that arrive through record_debug"""
+    return lg and name.startswith("log.") and v["t"] in VIA_DEBUG
+
+
 class Sim:
     """What was recorded, by the property's reading: per span the last value recorded per field; the scope of an event
     = its explicit parent's ancestor chain, the current span's chain if contextual, nothing if explicitly root.
     Also the two alternative readings used ONLY to attribute a violation to F10 / F141."""
 
-    def __init__(self, case):
+    def __init__(self, case, lg=False):
         self.case = case
+        self.lg = lg
         self.spans = {}
         self.stack = []
 
@@ -384,11 +430,12 @@ class Sim:
             names = names_of(self.case, op["cs"])
             p = op["parent"]
             parent = self.current() if p == -2 else (None if p == -1 else p)
-            sp = {"name": UH(cs["name"]), "parent": parent, "names": names, "fields": {}, "fields141": {}, "nrec": 0, "esc_drop": False}
+            sp = {"name": UH(cs["name"]), "cs": op["cs"], "parent": parent, "names": names, "fields": {}, "fields141": {}, "nrec": 0, "esc_drop": False}
             for i, v in op["vals"]:
                 if carries(v):
                     sp["fields"][names[i]] = v
-                    sp["fields141"][names[i]] = v
+                    if not log_skipped(self.lg, names[i], v):
+                        sp["fields141"][names[i]] = v
             self.spans[op["id"]] = sp
         elif k == "enter":
             self.stack.append(op["id"])
@@ -404,10 +451,14 @@ class Sim:
             for i, v in op["vals"]:
                 if carries(v):
                     sp["fields"][sp["names"][i]] = v
+                    if log_skipped(self.lg, sp["names"][i], v):
+                        continue
                     if not blocked:
                         sp["fields141"][sp["names"][i]] = v
                     else:
                         sp["esc_drop"] = True
+        elif k == "close":
+            self.spans.pop(op["id"], None)
 
     def scope(self, parent):
         if parent == -1:
@@ -419,6 +470,21 @@ class Sim:
         cur = self.current()
         leaf = parent if parent >= 0 and parent in self.spans else cur
         return leaf, self.chain(cur)
+
+
+DURATION = re.compile(r"^\d+(\.\d+)?(ns|\u00b5s|ms|s)$")
+
+
+def lifecycle_op(case, sim, op, point):
+    """the event a configured lifecycle point is documented to synthesise: the span's own metadata, the span as parent,
+    message = new|enter|exit|close (+ time.busy / time.idle at close when a timer is configured)"""
+    sp = sim.spans[op["id"]]
+    names = ["message"]
+    vals = [[0, {"t": "str", "v": H(point)}]]
+    if point == "close" and case["opts"]["ts"] is not None:
+        names += ["time.busy", "time.idle"]
+        vals += [[1, {"t": "duration", "v": None}], [2, {"t": "duration", "v": None}]]
+    return {"op": "event", "cs": sp["cs"], "parent": op["id"], "vals": vals, "_names": names, "_lifecycle": point}
 
 
 def stored_key(name, v):
@@ -456,6 +522,8 @@ def value_matches(v, obs, ulp_tol=0):
         return isinstance(obs, int) and not isinstance(obs, bool) and obs == n, False
     if t == "bool":
         return obs is v["v"], False
+    if t == "duration":
+        return isinstance(obs, str) and bool(DURATION.match(obs)), False
     if t in ("str", "debug", "display", "args"):
         return obs == UH(v["v"]), False
     if t == "error":
@@ -610,30 +678,58 @@ def coq_pspec(p):
     return "PCurrent" if p == -2 else ("PRoot" if p == -1 else "(PExplicit %s)" % vlib.coq_N(p))
 
 
-def coq_case(case, tid_hex):
+def close_timings(case, out):
+    """the Display text of the two durations of each close record, read from the implementation's line (real time: an input
+    of the model, like the thread id).  {op index: (busy, idle)}; missing / unparsable -> empty texts (the tie then fails)."""
+    res = {}
+    for k, op in enumerate(case["ops"]):
+        if op["op"] != "close" or k >= len(out):
+            continue
+        busy = idle = ""
+        try:
+            tree = strict_parse(b"".join(bytes.fromhex(x) for x in out[k])[:-1].decode("utf-8"))
+            holder = tree if case["opts"]["flatten"] else get(tree, "fields")
+            b_, i_ = get(holder, "time.busy"), get(holder, "time.idle")
+            busy, idle = (b_ if isinstance(b_, str) else ""), (i_ if isinstance(i_, str) else "")
+        except (ValueError, UnicodeDecodeError, TypeError):
+            pass
+        res[k] = (busy, idle)
+    return res
+
+
+def coq_case(case, tid_hex, lg, timings):
     o = case["opts"]
     b = vlib.coq_bool
     opts = ("{| o_flatten := %s; o_cur := %s; o_list := %s; o_ts := %s; o_level := %s; o_target := %s; o_file := %s; o_line := %s; "
-            "o_tname := %s; o_tid := %s |}") % (b(o["flatten"]), b(o["cur"]), b(o["list"]),
-                                                "None" if o["ts"] is None else "(Some %s)" % cb(bytes.fromhex(o["ts"])),
-                                                b(o["level"]), b(o["target"]), b(o["file"]), b(o["line"]), b(o["tname"]), b(o["tid"]))
+            "o_tname := %s; o_tid := %s; o_new := %s; o_enter := %s; o_exit := %s; o_close := %s |}") % (
+        b(o["flatten"]), b(o["cur"]), b(o["list"]),
+        "None" if o["ts"] is None else "(Some %s)" % cb(bytes.fromhex(o["ts"])),
+        b(o["level"]), b(o["target"]), b(o["file"]), b(o["line"]), b(o["tname"]), b(o["tid"]),
+        b(o.get("sev_new", False)), b(o.get("sev_enter", False)), b(o.get("sev_exit", False)), b(o.get("sev_close", False)))
     env = "{| thread_name := %s; thread_id := %s |}" % (
         "None" if case["thread"] is None else "(Some %s)" % cb(bytes.fromhex(case["thread"])), cb(bytes.fromhex(tid_hex)))
     ops = []
     span_cs = {}
-    for op in case["ops"]:
-        k = op["op"]
-        if k == "span":
+    for k, op in enumerate(case["ops"]):
+        kind = op["op"]
+        if kind == "span":
             span_cs[op["id"]] = op["cs"]
             c = case["callsites"][op["cs"]]
-            ops.append("ONew %s %s %s %s" % (vlib.coq_N(op["id"]), cb(bytes.fromhex(c["name"])), coq_pspec(op["parent"]), coq_fields(case, op["cs"], op["vals"])))
-        elif k == "enter":
+            meta = "{| sm_name := %s; sm_level := %s; sm_target := %s; sm_file := %s; sm_line := %s |}" % (
+                cb(bytes.fromhex(c["name"])), vlib.coq_N(c["level"]), cb(bytes.fromhex(c["target"])),
+                "None" if c["file"] is None else "(Some %s)" % cb(bytes.fromhex(c["file"])),
+                "None" if c["line"] is None else "(Some %s)" % vlib.coq_N(c["line"]))
+            ops.append("ONew %s %s %s %s" % (vlib.coq_N(op["id"]), meta, coq_pspec(op["parent"]), coq_fields(case, op["cs"], op["vals"])))
+        elif kind == "enter":
             ops.append("OEnter %s" % vlib.coq_N(op["id"]))
-        elif k == "exit":
+        elif kind == "exit":
             ops.append("OExit %s" % vlib.coq_N(op["id"]))
-        elif k == "record":
+        elif kind == "record":
             ops.append("ORecord %s %s" % (vlib.coq_N(op["id"]), coq_fields(case, span_cs[op["id"]], op["vals"])))
-        elif k == "event":
+        elif kind == "close":
+            busy, idle = timings.get(k, ("", ""))
+            ops.append("OClose %s %s %s" % (vlib.coq_N(op["id"]), cb(busy), cb(idle)))
+        elif kind == "event":
             c = case["callsites"][op["cs"]]
             ev = "{| ev_level := %s; ev_target := %s; ev_file := %s; ev_line := %s; ev_vals := %s |}" % (
                 vlib.coq_N(c["level"]), cb(bytes.fromhex(c["target"])),
@@ -641,7 +737,7 @@ def coq_case(case, tid_hex):
                 "None" if c["line"] is None else "(Some %s)" % vlib.coq_N(c["line"]),
                 coq_fields(case, op["cs"], op["vals"]))
             ops.append("OEvent %s %s" % (ev, coq_pspec(op["parent"])))
-    return "(run repo_cfg %s %s %s)" % (opts, env, vlib.coq_list(ops))
+    return "(run_ops (repo_cfg_of %s) %s %s %s)" % (b(lg), opts, env, vlib.coq_list(ops))
 
 
 # ------------------------------------------------------------------------------------------------
@@ -662,7 +758,7 @@ def run_harness(ctx, rep, path, cases, tag):
         except ValueError:
             continue
         if "build" in r:
-            build = r["build"]
+            build = r["build"] + ("-log" if r.get("log") else "")
         elif "id" in r:
             obs[r["id"]] = r
     if rc != 0 or len(obs) != len(cases):
@@ -692,7 +788,7 @@ def oracle_event(rep, case, sim, op, raw_chunks, flags, prof, ev_index):
         bad("record is not a JSON object")
         return None
     o = case["opts"]
-    names = names_of(case, op["cs"])
+    names = op.get("_names") or names_of(case, op["cs"])
     pairs = [(names[i], v) for i, v in op["vals"] if carries(v)]
     ev_names = [n for n, _ in pairs]
     # --- unique keys
@@ -757,6 +853,11 @@ def oracle_event(rep, case, sim, op, raw_chunks, flags, prof, ev_index):
             keys = [n] + ([n[2:]] if n.startswith("r#") else [])
             found = [k for k in keys if has(obj, k)]
             seen.update(found)
+            if sim.lg and n.startswith("log."):
+                # documented exclusion of the tracing-log build: `log.*` span fields are that crate's metadata (the
+                # formatter drops those recorded through Debug); the correspondence still checks them against the model
+                rep.count("excluded:log-prefixed-span-field")
+                continue
             if not found:
                 fnd = "F141" if (sp["esc_drop"] and n not in alt) else None
                 out.append(("span field %r missing (recorded %s)" % (n, json.dumps(v)), fnd))
@@ -894,8 +995,10 @@ def run(ctx):
                 "widths at their extremes, NaN / inf / signed zero / subnormal / random f64 and f32, bools, byte slices, error "
                 "chains, ?/% / format_args values; field names: identifiers, dotted, raw identifiers, string literals with odd "
                 "characters, reserved words where they are legal.  Streams: mixed, contextual-only, default options, float-free "
-                "(byte-for-byte), excluded (reserved-key collisions: only `one line that parses` is demanded), plus a fixed macro "
-                "scenario list.  non-trivial = a record whose line contains >= 1 escaped character class AND whose scope has a "
+                "(byte-for-byte), excluded (reserved-key collisions: only `one line that parses` is demanded), lifecycle "
+                "(with_span_events NEW / ENTER / EXIT / CLOSE subsets, with and without a timer, span handles dropped so that "
+                "spans close mid-history), plus a fixed macro scenario list.  Every case runs on two builds of the real crates: "
+                "without and with tracing-subscriber's default `tracing-log` feature.  non-trivial = a record whose line contains >= 1 escaped character class AND whose scope has a "
                 "span recorded into >= 2 times; distinct = distinct line bytes")
     rep.trusted_base = [
         "Coq 8.16.1 kernel + vm_compute (no native_compute)",
@@ -906,9 +1009,11 @@ def run(ctx):
     rep.assumptions = [
         "finite f64 text (shortest round-trip) is not modelled: parse_render / stored-string refinement are for float-free trees; floats are compared numerically through the independent parser (PARTIAL)",
         "strings are valid UTF-8 (Rust's str); the theorems cover all byte lists, the model parser does not validate UTF-8",
-        "tracing-subscriber built without the tracing-log feature (with it, span fields named `log.*` recorded through record_debug are deliberately skipped, and event metadata is normalised)",
+        "build with the `tracing-log` feature: span fields named `log.*` are that crate's metadata (those recorded through Debug/Display are deliberately skipped by JsonVisitor): excluded from the oracle's faithfulness clause there, modelled exactly (feat_log) and compared by the correspondence; events that really come from the `log` crate (normalised metadata) are not generated",
+        "Debug / Display impls of recorded values and the timer do not fail (a failing one makes format_event return Err; fmt_subscriber then writes its `Unable to format` line, C13's subject)",
         "serde_json without preserve_order / arbitrary_precision (checked by the translator in tracing-subscriber/Cargo.toml): Value's object is a BTreeMap",
-        "no span closes during a case (handles are kept), a span is not re-entered while entered",
+        "a span handle is dropped only when nothing else refers to the span (not entered, no live child), so that it closes at that operation (when a span closes is C05's subject); a span is not re-entered while entered; closed spans are not referred to again",
+        "close timings (time.busy / time.idle) are real-time text: inputs of the model taken from the run, the oracle demands the documented duration format only",
         "reserved keys (the property's exclusion): the ten top-level keys for flattened event fields, `name` for span fields; never both `r#x` and `x` in one field set",
         "fmt::Arguments / Empty / unset / Option handling is tracing-core's (values without a recording are dropped by the driver before the model sees them)"]
     # ---- leg B1: translator
@@ -933,58 +1038,89 @@ def run(ctx):
         scale = 5 if ctx.thorough() else 1
         plan = [("mixed", 150, {}), ("contextual", 70, {"explicit": False, "esc_names": False}), ("default", 50, {"explicit": False}),
                 ("nofloat", 90, {"floats": False, "esc_names": False}), ("dupnames", 8, {"dup": True, "explicit": False}),
-                ("excluded", 20, {"collide": True, "explicit": False, "esc_names": False})]
+                ("excluded", 20, {"collide": True, "explicit": False, "esc_names": False}),
+                ("lifecycle", 60, {"esc_names": False})]
         for kind, n, kw in plan:
             for _ in range(n * scale):
                 cases.append(gen_case(rng, kind, **kw))
     for i, c in enumerate(cases):
         c["id"] = i + 1
     by_id = {c["id"]: c for c in cases}
-    # ---- implementation
-    builds = [False] + ([True] if ctx.thorough() else [])
+    # ---- implementation: the same cases on the plain build and on the build with tracing-subscriber's default
+    #      `tracing-log` feature (h_json_log); thorough: both also as release builds
+    builds = [(False, False), (False, True)] + ([(True, False), (True, True)] if ctx.thorough() else [])
     impl = []
-    for rel in builds:
-        ok, paths, log = cargo_build(ctx, "json", ["h_json", "h_json_forms"], release=rel)
+    for rel, lg in builds:
+        binname = "h_json_log" if lg else "h_json"
+        ok, paths, log = cargo_build(ctx, "json", [binname] + ([] if lg else ["h_json_forms"]), release=rel, features=["log"] if lg else None)
+        want_build = ("release" if rel else "debug") + ("-log" if lg else "")
         if not ok:
-            rep.tie("build:h_json" + ("-release" if rel else ""), False, vlib.last_error(log))
+            rep.tie("build:" + want_build, False, vlib.last_error(log))
             return rep
-        obs, build = run_harness(ctx, rep, paths["h_json"], [strip_case(c) for c in cases], "release" if rel else "debug")
-        want_build = "release" if rel else "debug"
+        obs, build = run_harness(ctx, rep, paths[binname], [strip_case(c) for c in cases], want_build)
         if build != want_build:
             rep.tie("build-profile:" + want_build, False, "harness reports %r" % build)
-        rc, fout = run_bin(paths["h_json_forms"], timeout=120)
-        forms = [json.loads(l) for l in fout.splitlines() if l.startswith("{")] if rc == 0 else []
-        if rc != 0 or not forms:
-            rep.tie("run:h_json_forms:" + want_build, False, vlib.last_error(fout)[:300])
-        impl.append((want_build, obs, forms))
+        forms = []
+        if not lg:
+            rc, fout = run_bin(paths["h_json_forms"], timeout=120)
+            forms = [json.loads(l) for l in fout.splitlines() if l.startswith("{")] if rc == 0 else []
+            if rc != 0 or not forms:
+                rep.tie("run:h_json_forms:" + want_build, False, vlib.last_error(fout)[:300])
+        impl.append((want_build, lg, obs, forms))
         ctx.log("implementation run (%s): %d cases" % (want_build, len(obs)))
-
-    # ---- model evaluation on the same histories (thread id text comes from the run)
-    model = None
+    # the serde_json the harness was linked with is the one whose ESCAPE table the translator read
     try:
-        prof0, obs0, _ = impl[0]
-        terms = []
-        chunk = 25
-        ids = [c["id"] for c in cases if c["id"] in obs0]
-        for i in range(0, len(ids), chunk):
-            part = ids[i:i + chunk]
-            terms.append(("m%d" % i, vlib.coq_list([coq_case(by_id[j], obs0[j]["tid"]) for j in part])))
-        res = coq_eval(ctx, "From Coq Require Import String Ascii NArith ZArith Bool List.\nFrom TV Require Import Fmt.JsonModel.\nImport ListNotations.\nLocal Open Scope N_scope.",
-                       terms, shards=min(vlib.NCPU, max(1, len(terms))))
+        lock = open(os.path.join(os.path.dirname(vlib.harness_pkg(ctx, "json")), "Cargo.lock")).read()
+        vers = re.findall(r'name = "serde_json"\nversion = "([^"]+)"', lock)
+        want = re.search(r'gen_serde_json_version : string := "([^"]*)"', text).group(1)
+        rep.tie("serde_json-version", vers == [want], "harness lock file has serde_json %s, the translator read the ESCAPE table of %s" % (vers, want))
+    except (OSError, AttributeError) as ex:
+        rep.tie("serde_json-version", False, str(ex)[:200])
+
+    # ---- model evaluation on the same histories (thread id text and the close timings are inputs taken from the run the
+    #      model is evaluated for).  feat_log = false: every case.  feat_log = true: every case that has a span field name
+    #      starting with `log.` plus every 6th other case; for the remaining ones C14_log_feature_inert proves that the
+    #      model writes the same lines in both configurations (premise checked here: no such name), so the plain
+    #      evaluation is the model's answer for the log build too.
+    def has_log_name(c):
+        return any(cs["kind"] == "span" and any(UH(f).startswith("log.") for f in cs["fields"]) for cs in c["callsites"])
+
+    models = {}
+    for lg in (False, True):
+        prof0, obs0 = [(prof, obs) for prof, l, obs, _ in impl if l == lg][0]
         model = {}
-        for i in range(0, len(ids), chunk):
-            for j, lines in zip(ids[i:i + chunk], res["m%d" % i]):
-                model[j] = [bytes(l) for l in lines]
-    except Exception as ex:  # ModelEvalError or a parse problem: the tie is broken, the oracle still runs
-        rep.tie("model-eval", False, str(ex)[:300])
-    ctx.log("model evaluated on %s histories" % (len(model) if model is not None else "no"))
+        try:
+            terms = []
+            chunk = 25
+            ids = [c["id"] for n, c in enumerate(cases) if c["id"] in obs0 and (not lg or has_log_name(c) or n % 6 == 0 or ctx.replay)]
+            for i in range(0, len(ids), chunk):
+                part = ids[i:i + chunk]
+                terms.append(("m%d" % i, vlib.coq_list([coq_case(by_id[j], obs0[j]["tid"], lg, close_timings(by_id[j], obs0[j]["out"])) for j in part])))
+            res = coq_eval(ctx, "From Coq Require Import String Ascii NArith ZArith Bool List.\nFrom TV Require Import Fmt.JsonModel.\nImport ListNotations.\nLocal Open Scope N_scope.",
+                           terms, shards=min(vlib.NCPU, max(1, len(terms))), tag="cases_log" if lg else "cases")
+            for i in range(0, len(ids), chunk):
+                for j, per_op in zip(ids[i:i + chunk], res["m%d" % i]):
+                    model[j] = (prof0, [[bytes(l) for l in lines] for lines in per_op])
+            n_eval = len(model)
+            if lg and False in models:
+                for cid, v in models[False].items():
+                    if cid not in model and not has_log_name(by_id[cid]):
+                        model[cid] = v
+            models[lg] = model
+            rep.count("model-evaluated:feat_log=%s" % lg, n_eval)
+        except Exception as ex:  # ModelEvalError or a parse problem: the tie is broken, the oracle still runs
+            rep.tie("model-eval" + ("-log" if lg else ""), False, str(ex)[:300])
+        ctx.log("model (feat_log=%s) evaluated on %s histories" % (lg, n_eval if lg in models else "no"))
 
     # ---- correspondence + oracle
     distinct_lines = set()
-    for prof, obs, forms in impl:
+    sev_point = {"span": ("sev_new", "new"), "enter": ("sev_enter", "enter"), "exit": ("sev_exit", "exit"), "close": ("sev_close", "close")}
+    for prof, lg, obs, forms in impl:
         disagree = []
         n_bytes_eq = 0
         n_tree_eq = 0
+        model = models.get(lg)
+        obs_of = {p2: ob for p2, l2, ob, _ in impl}
         for c in cases:
             cid = c["id"]
             r = obs.get(cid)
@@ -994,42 +1130,73 @@ def run(ctx):
             if r["panic"] is not None:
                 rep.violation("the formatter panicked: %s [%s build]" % (bytes.fromhex(r["panic"]).decode("utf-8", "replace")[:200], prof),
                               {"case": strip_case(c), "profile": prof})
-            sim = Sim(c)
-            ev_i = 0
-            tid_masked = cid in obs and prof != impl[0][0]
-            for op in c["ops"]:
-                if op["op"] != "event":
-                    sim.apply(op)
-                    rep.count("op:" + op["op"])
-                    continue
-                rep.count("op:event")
-                rep.count("parent:" + {-2: "contextual", -1: "explicit-root"}.get(op["parent"], "explicit-span"))
-                if ev_i >= len(r["events"]):
+            sim = Sim(c, lg)
+            o = c["opts"]
+            model_prof, ml = model.get(cid, (None, None)) if model is not None else (None, None)
+            if ml is not None and len(ml) != len(c["ops"]):
+                disagree.append({"case": strip_case(c), "impl_ops": len(r["out"]), "model_ops": len(ml)})
+                ml = None
+            tid_here, tid_model = bytes.fromhex(r["tid"]), None
+            timings_model, timings_here = {}, {}
+            if ml is not None and prof != model_prof:
+                # the model was evaluated with another run's thread id / close timings: substitute this run's texts
+                r0 = obs_of[model_prof][cid]
+                tid_model = bytes.fromhex(r0["tid"])
+                timings_model = close_timings(c, r0["out"])
+                timings_here = close_timings(c, r["out"])
+            for k, op in enumerate(c["ops"]):
+                kind = op["op"]
+                rep.count("op:" + kind)
+                if k >= len(r["out"]):
                     break
-                chunks = [bytes.fromhex(x) for x in r["events"][ev_i]]
+                chunks = [bytes.fromhex(x) for x in r["out"][k]]
+                # what the operation is documented to write
+                eop = None
+                if kind == "event":
+                    eop = op
+                    rep.count("parent:" + {-2: "contextual", -1: "explicit-root"}.get(op["parent"], "explicit-span"))
+                elif kind in sev_point and o.get(sev_point[kind][0], False):
+                    if kind != "close":
+                        sim.apply(op)
+                    eop = lifecycle_op(c, sim, op, sev_point[kind][1])
+                    rep.count("lifecycle:" + sev_point[kind][1])
+                elif kind != "close":
+                    sim.apply(op)
+                if kind == "record":
+                    pass
+                if eop is None:
+                    if chunks:
+                        rep.violation("operation %r wrote %d chunk(s) although no record is due [%s build]" % (kind, len(chunks), prof),
+                                      {"case": strip_case(c), "op_index": k, "profile": prof, "line_hex": b"".join(chunks).hex()})
+                    if ml is not None and ml[k]:
+                        disagree.append({"case": strip_case(c), "op_index": k, "impl": None, "model": ml[k][0].decode("utf-8", "replace")})
+                    if kind == "close":
+                        sim.apply(op)
+                    continue
                 raw = b"".join(chunks)
                 rep.evaluations += 1
                 rep.count("writes-per-record:%d" % len(chunks))
-                tree = oracle_event(rep, c, sim, op, chunks, flags, prof, ev_i)
+                tree = oracle_event(rep, c, sim, eop, chunks, flags, prof, k)
                 classes = escape_classes(raw)
-                for k in classes:
-                    rep.count("escape:" + k)
-                scope = sim.scope(op["parent"])
+                for cl in classes:
+                    rep.count("escape:" + cl)
+                scope = sim.scope(eop["parent"])
                 if classes and any(sim.spans[i]["nrec"] >= 2 for i in scope):
                     rep.nontrivial.add(raw)
                 distinct_lines.add(raw)
-                o = c["opts"]
                 rep.count("opts:flatten=%d,cur=%d,list=%d" % (o["flatten"], o["cur"], o["list"]))
                 # correspondence with the model
-                if model is not None and cid in model:
-                    ml = model[cid]
-                    if ev_i >= len(ml):
-                        disagree.append({"case": strip_case(c), "event_index": ev_i, "impl": raw.decode("utf-8", "replace"), "model": None})
+                if ml is not None:
+                    if len(ml[k]) != 1:
+                        disagree.append({"case": strip_case(c), "op_index": k, "impl": raw.decode("utf-8", "replace"), "model": [x.decode("utf-8", "replace") for x in ml[k]]})
                     else:
-                        mraw = ml[ev_i]
-                        if tid_masked:
-                            # a second run has other thread ids: compare against this run's id text
-                            mraw = mraw.replace(bytes.fromhex(impl[0][1][cid]["tid"]), bytes.fromhex(r["tid"]))
+                        mraw = ml[k][0]
+                        if tid_model is not None:
+                            mraw = mraw.replace(tid_model, tid_here)
+                            if k in timings_model and k in timings_here:
+                                for a_, b_ in zip(timings_model[k], timings_here[k]):
+                                    if a_:
+                                        mraw = mraw.replace(json.dumps(a_, ensure_ascii=False).encode(), json.dumps(b_, ensure_ascii=False).encode(), 1)
                         try:
                             mtree = strict_parse(mraw[:-1].decode("utf-8"))
                         except (ValueError, UnicodeDecodeError):
@@ -1039,19 +1206,17 @@ def run(ctx):
                         float_free = mtree is not None and not has_float(mtree)
                         if not same_tree or (float_free and mraw != raw):
                             if len(disagree) < 5:
-                                disagree.append({"case": strip_case(c), "event_index": ev_i, "impl": raw.decode("utf-8", "replace"),
+                                disagree.append({"case": strip_case(c), "op_index": k, "impl": raw.decode("utf-8", "replace"),
                                                  "model": mraw.decode("utf-8", "replace"), "float_free": float_free})
                             else:
                                 disagree.append(None)
                         else:
                             n_tree_eq += 1
                             n_bytes_eq += 1 if float_free else 0
-                ev_i += 1
-            n_ev = sum(1 for op in c["ops"] if op["op"] == "event")
-            if r["panic"] is None and len(r["events"]) != n_ev:
-                rep.violation("%d events dispatched, %d records written [%s build]" % (n_ev, len(r["events"]), prof), {"case": strip_case(c), "profile": prof})
-            if model is not None and cid in model and len(model[cid]) != n_ev:
-                disagree.append({"case": strip_case(c), "impl_records": len(r["events"]), "model_records": len(model[cid])})
+                if kind == "close":
+                    sim.apply(op)
+            if r["panic"] is None and len(r["out"]) != len(c["ops"]):
+                rep.violation("%d operations, output for %d [%s build]" % (len(c["ops"]), len(r["out"]), prof), {"case": strip_case(c), "profile": prof})
         check_forms(rep, forms, prof)
         if model is not None:
             rep.tie("correspondence:" + prof, not disagree,
@@ -1063,9 +1228,10 @@ def run(ctx):
     rep.extra["distinct_lines"] = len(distinct_lines)
     samples = []
     for c in cases[:2] + cases[5:7]:
-        r = impl[0][1].get(c["id"])
-        if r and r["events"]:
+        r = impl[0][2].get(c["id"])
+        recs = [x for x in (r["out"] if r else []) if x]
+        if recs:
             samples.append({"kind": c.get("kind"), "opts": c["opts"], "n_ops": len(c["ops"]),
-                            "first_record": b"".join(bytes.fromhex(x) for x in r["events"][0]).decode("utf-8", "replace")})
+                            "first_record": b"".join(bytes.fromhex(x) for x in recs[0]).decode("utf-8", "replace")})
     rep.samples = samples
     return rep
